@@ -73,7 +73,7 @@ def r5(cx):
     b = f.body("Wal::open_with_min_log_number")
     for c in sites(cx, b, "Wal::create_writer"):
         o = origin_of_operand(b, c.args[1], through_calls="all")
-        cx.check(o.from_call("std::cmp::max", "std::cmp::Ord::max") and o.from_call("Wal::calculate_active_log_number"),
+        cx.check(o.from_call("std::cmp::max", "std::cmp::Ord::max") and from_highest_segment_on_disk(f, o),
                  "the active segment is max(min_log_number, highest segment on disk)", "active-segment-floor", c.where(),
                  "open_with_min_log_number no longer takes max(min_log_number, highest on disk): new commits go to a segment recovery will skip")
 
